@@ -588,6 +588,10 @@ example : (SchedL.fitSrc 7 3 2 5 [fun _ => false]
     (fun (l : List (Nat × Nat)) lo hi => l ++ [(lo, hi)]) []).map (fun r => (r.state, r.nIter, r.calls)) =
     some ([(0, 3), (3, 6), (6, 7), (0, 3), (3, 6)], 5, [(0, 1), (0, 2), (0, 3), (0, 4)]) := by decide +kernel
 example : SchedL.epochSlicesSrc AdvScheduleSrc.cfg 7 3 = [(0, 3), (3, 6), (6, 7)] := by decide +kernel
+-- life cycle: predict first (NotFitted), first partial_fit builds engine 1, a warm fit continues on it (2 more steps,
+-- n_iter_ = 2), a cold fit builds engine 2 and trains it on one slice
+example : (SchedLife.runOps [.predict, .pfit 0 2 false, .fit 4 2 1 (-1) true, .fit 4 (-1) 1 (-1) false]).1 =
+    ["notfitted:0:x:x", "ok:1:x:1/1", "ok:1:2:1/3", "ok:2:1:2/1"] := by decide +kernel
 example : SchedL.predictBinarySrc [3, 5] AdvScheduleSrc.thresholdDefault (1/2) = some 5 := by decide +kernel
 
 end C17
